@@ -466,6 +466,55 @@ func (s *State) UnmarshalFull(entry string, b, h, dh, eqh, eqb int) V {
 	return s.emit(ev)
 }
 
+// UnmarshalInto decodes buffer b into the packet handle h already holds (a receiver the caller uses
+// again, or a packet it built). What the receiver holds afterwards is judged like any decode: the
+// model's Unmarshal does not look at the previous contents. The event also carries what a fresh
+// receiver gives for the same bytes ("fresh") and whether memory the caller still owns was written:
+// the buffer the previous contents were decoded from, and the outputs of earlier Marshal calls.
+func (s *State) UnmarshalInto(entry string, b, h int) V {
+	cur, ok := s.Pk[h].(rtcp.Packet)
+	if !ok || reflect.TypeOf(cur) != reflect.TypeOf(NewOf(entry)) {
+		return s.Unmarshal(entry, b, h)
+	}
+	orig := s.Buf[b]
+	in := append([]byte(nil), orig...)
+	fresh := NewOf(entry)
+	var ferr error
+	fpan, _ := guardedDecode(func() string { return fmt.Sprintf("unmarshal %s %v", entry, orig) }, func() { ferr = fresh.Unmarshal(append([]byte(nil), orig...)) })
+	var err error
+	a0 := s.allocNow()
+	pan, msg := guardedDecode(func() string { return fmt.Sprintf("unmarshal into used receiver %s %v", entry, orig) }, func() { err = cur.Unmarshal(in) })
+	alloc := s.allocNow() - a0
+	memsame := true
+	if old, ok := s.in[h]; ok && !bytes.Equal(old, s.orig[h]) {
+		memsame = false
+	}
+	for _, k := range s.keptB {
+		if !bytes.Equal(k[0], k[1]) {
+			memsame = false
+		}
+	}
+	var out any = none
+	delete(s.spare, h)
+	if !pan && err == nil {
+		out = abs.Abs(cur)
+		s.in[h], s.orig[h] = in, append([]byte(nil), in...)
+	} else {
+		delete(s.Pk, h)
+		delete(s.in, h)
+	}
+	ev := decodeEvent("unmarshal", entry, b, h, in, orig, pan, msg, err, alloc, out)
+	ev["dh"], ev["eqh"], ev["eqb"] = 0, 0, 0
+	ev["reuse"] = true
+	ev["memsame"] = memsame
+	fv := V{"ok": !fpan && ferr == nil, "panic": fpan, "out": any(none)}
+	if !fpan && ferr == nil {
+		fv["out"] = abs.Abs(fresh)
+	}
+	ev["fresh"] = fv
+	return s.emit(ev)
+}
+
 func (s *State) Datagram(b, h int) V { return s.DatagramParts(b, h, nil) }
 
 // DatagramParts decodes buffer b; parts names the handles that hold the
@@ -500,6 +549,35 @@ func (s *State) DatagramParts(b, h int, parts []int) V {
 }
 
 // UnitDecode runs an exported sub-structure decoder on buffer b.
+// unitReceiver returns a decoder bound to one fresh value of the exported sub-structure and the
+// projection of that value.
+func unitReceiver(unit string) (func([]byte) error, func() any) {
+	switch unit {
+	case "hdr":
+		x := new(rtcp.Header)
+		return x.Unmarshal, func() any { return abs.Hdr(*x) }
+	case "rb":
+		x := new(rtcp.ReceptionReport)
+		return x.Unmarshal, func() any { return abs.RB(*x) }
+	case "chunk":
+		x := new(rtcp.SourceDescriptionChunk)
+		return x.Unmarshal, func() any { return abs.SDESChunk(*x) }
+	case "item":
+		x := new(rtcp.SourceDescriptionItem)
+		return x.Unmarshal, func() any { return abs.SDESItem(*x) }
+	case "rl":
+		x := new(rtcp.RunLengthChunk)
+		return x.Unmarshal, func() any { return abs.RunLength(x) }
+	case "sv":
+		x := new(rtcp.StatusVectorChunk)
+		return x.Unmarshal, func() any { return abs.StatusVector(x) }
+	case "delta":
+		x := new(rtcp.RecvDelta)
+		return x.Unmarshal, func() any { return abs.Delta(x) }
+	}
+	panic("exec: unknown unit " + unit)
+}
+
 func (s *State) UnitDecode(unit string, b int) V {
 	orig := s.Buf[b]
 	in := append([]byte(nil), orig...)
@@ -507,44 +585,9 @@ func (s *State) UnitDecode(unit string, b int) V {
 	var out any = none
 	a0 := s.allocNow()
 	pan, msg := guardedDecode(func() string { return fmt.Sprintf("udec %s %v", unit, orig) }, func() {
-		switch unit {
-		case "hdr":
-			var x rtcp.Header
-			if err = x.Unmarshal(in); err == nil {
-				out = abs.Hdr(x)
-			}
-		case "rb":
-			var x rtcp.ReceptionReport
-			if err = x.Unmarshal(in); err == nil {
-				out = abs.RB(x)
-			}
-		case "chunk":
-			var x rtcp.SourceDescriptionChunk
-			if err = x.Unmarshal(in); err == nil {
-				out = abs.SDESChunk(x)
-			}
-		case "item":
-			var x rtcp.SourceDescriptionItem
-			if err = x.Unmarshal(in); err == nil {
-				out = abs.SDESItem(x)
-			}
-		case "rl":
-			var x rtcp.RunLengthChunk
-			if err = x.Unmarshal(in); err == nil {
-				out = abs.RunLength(&x)
-			}
-		case "sv":
-			var x rtcp.StatusVectorChunk
-			if err = x.Unmarshal(in); err == nil {
-				out = abs.StatusVector(&x)
-			}
-		case "delta":
-			var x rtcp.RecvDelta
-			if err = x.Unmarshal(in); err == nil {
-				out = abs.Delta(&x)
-			}
-		default:
-			panic("exec: unknown unit " + unit)
+		dec, proj := unitReceiver(unit)
+		if err = dec(in); err == nil {
+			out = proj()
 		}
 	})
 	alloc := s.allocNow() - a0
@@ -552,6 +595,41 @@ func (s *State) UnitDecode(unit string, b int) V {
 		out = none
 	}
 	return s.emit(decodeEvent("udec", unit, b, 0, in, orig, pan, msg, err, alloc, out))
+}
+
+// UnitDecodeInto decodes buffer b into a sub-structure value that has already decoded prev; the event
+// also carries what a fresh value gives for the same octets.
+func (s *State) UnitDecodeInto(unit string, prev []byte, b int) V {
+	orig := s.Buf[b]
+	in := append([]byte(nil), orig...)
+	var err, ferr error
+	var out, fout any = none, none
+	fpan, _ := guardedDecode(func() string { return fmt.Sprintf("udec %s %v", unit, orig) }, func() {
+		dec, proj := unitReceiver(unit)
+		if ferr = dec(append([]byte(nil), orig...)); ferr == nil {
+			fout = proj()
+		}
+	})
+	a0 := s.allocNow()
+	pan, msg := guardedDecode(func() string { return fmt.Sprintf("udec %s %v after %v", unit, orig, prev) }, func() {
+		dec, proj := unitReceiver(unit)
+		_ = dec(append([]byte(nil), prev...))
+		if err = dec(in); err == nil {
+			out = proj()
+		}
+	})
+	alloc := s.allocNow() - a0
+	if pan || err != nil {
+		out = none
+	}
+	if fpan || ferr != nil {
+		fout = none
+	}
+	ev := decodeEvent("udec", unit, b, 0, in, orig, pan, msg, err, alloc, out)
+	ev["reuse"] = true
+	ev["prev"] = abs.Bytes(prev)
+	ev["fresh"] = V{"ok": !fpan && ferr == nil, "panic": fpan, "out": fout}
+	return s.emit(ev)
 }
 
 // UnitEncode runs an exported sub-structure encoder on value v; the bytes go to buffer h.
